@@ -853,6 +853,9 @@ class Ev:
         return Poly.atom(("sum", p.canon()))
 
     def mul(self, a, b, where=""):
+        if getattr(self, "factor_sums", False) and not (a.is_const() or b.is_const()):
+            # keep every sum as one factor (for ratios such as (n-1)/(m-1), which must cancel as wholes)
+            return self.atomise(a, where).mul_raw(self.atomise(b, where))
         if self.expand or a.is_const() or b.is_const() or a.single() or b.single():
             return a.mul_raw(b)
         return self.atomise(a, where).mul_raw(self.atomise(b, where))
@@ -1049,6 +1052,8 @@ class Ev:
         key = (role, (off + idx).canon())
         if key in env["mem"]:
             return env["mem"][key]
+        if role in env.get("elem_values", ()):
+            return env["elem_values"][role]  # every element of this input array stands for one given value
         if role.split("@")[0] in env.get("zero_roots", ()) and (off + idx).is_const():
             return Poly()  # element of a zero-initialised buffer that has not been written
         return Poly.atom(("elem", role, (off + idx).canon()))
@@ -1076,6 +1081,10 @@ class Ev:
             return Poly.atom(("fn", name, (self.expr(args[0], env).canon(),)))
         if name in self.LIBM_DIMLESS:
             vals = [self.expr(a, env) for a in args]
+            if name == "log" and len(vals) == 1:
+                r = log_of_power(vals[0])
+                if r is not None:
+                    return r
             for v in vals:
                 d = self.deg_poly(v, where=self.where(n))
                 if d is not None and d != (0, 0):
@@ -1610,6 +1619,93 @@ class Ev:
 
 IMAG = ("sym", "<I>")
 MISSING = object()
+
+
+def log_of_power(p):
+    """log(b**e) -> e * log(b) when p is exactly one pow(b, e) atom (the only logarithm law applied)"""
+    if not p.single():
+        return None
+    (m, c), = p.t.items()
+    if c != 1 or len(m) != 1 or m[0][1] != 1 or m[0][0][0] != "pow":
+        return None
+    a = m[0][0]
+    return Poly(dict(a[2])).mul_raw(Poly.atom(("fn", "log", (a[1],))))
+
+
+class PyPoly:
+    """Python arithmetic expressions -> the same polynomial normal form (for formulas that have a C twin).
+    names: {python name or 'self.attr' -> Poly}; unknown self attributes become symbols named by the attribute,
+    local names are resolved through their single assignment in `fn`."""
+
+    def __init__(self, fn=None, names=None, factor_sums=False):
+        self.fn = fn
+        self.names = dict(names or {})
+        self.ev = Ev.__new__(Ev)
+        self.ev.expand = False
+        self.ev.mismatches = []
+        self.ev.degs = {}
+        self.ev.l_role = "l"
+        self.ev.factor_sums = factor_sums
+        self._depth = 0
+
+    def local_def(self, name):
+        if self.fn is None:
+            return None
+        defs = [n.value for n in pf.walk_no_nested(self.fn) if isinstance(n, ast.Assign) and len(n.targets) == 1
+                and isinstance(n.targets[0], ast.Name) and n.targets[0].id == name]
+        return defs[0] if len(defs) == 1 else None
+
+    def poly(self, e):
+        if isinstance(e, ast.Constant) and isinstance(e.value, (int, float)) and not isinstance(e.value, bool):
+            return Poly.const(Fr(repr(e.value)) if isinstance(e.value, float) else e.value)
+        if isinstance(e, ast.Name):
+            if e.id in self.names:
+                return self.names[e.id]
+            d = self.local_def(e.id)
+            if d is not None and self._depth < 6:
+                self._depth += 1
+                try:
+                    return self.poly(d)
+                finally:
+                    self._depth -= 1
+            return Poly.atom(("sym", e.id))
+        if isinstance(e, ast.Attribute):
+            key = pf.src(e)
+            if key in self.names:
+                return self.names[key]
+            if pf.is_self_attr(e):
+                return Poly.atom(("sym", e.attr.lstrip("_")))
+            return Poly.atom(("sym", key))
+        if isinstance(e, ast.UnaryOp) and isinstance(e.op, (ast.USub, ast.UAdd)):
+            v = self.poly(e.operand)
+            return -v if isinstance(e.op, ast.USub) else v
+        if isinstance(e, ast.BinOp):
+            a, b = self.poly(e.left), self.poly(e.right)
+            if isinstance(e.op, ast.Add):
+                return a + b
+            if isinstance(e.op, ast.Sub):
+                return a - b
+            if isinstance(e.op, ast.Mult):
+                return self.ev.mul(a, b)
+            if isinstance(e.op, ast.Div):
+                return self.ev.mul(a, self.ev.inv(b, pf.src(e)))
+            if isinstance(e.op, ast.Pow):
+                cb = b.const_value()
+                if cb is not None:
+                    return self.ev.powc(a, cb, pf.src(e))
+                return Poly.atom(("pow", self.ev.atomise(a).canon(), b.canon()))
+        if isinstance(e, ast.Call):
+            name = (pf.call_name(e) or "").split(".")[-1]
+            if name in ("astype", "copy") and isinstance(e.func, ast.Attribute):
+                return self.poly(e.func.value)
+            if name in ("float", "int", "float64", "asarray", "array", "ascontiguousarray") and len(e.args) == 1:
+                return self.poly(e.args[0])
+            if name == "sqrt" and len(e.args) == 1:
+                return self.ev.powc(self.poly(e.args[0]), Fr(1, 2))
+            if name == "log" and len(e.args) == 1:
+                v = self.poly(e.args[0])
+                return log_of_power(v) or Poly.atom(("fn", "log", (v.canon(),)))
+        raise AnalysisError("python expression %s is outside the arithmetic fragment" % pf.src(e)[:80])
 
 
 def _mentions_sym(p, prefix):
